@@ -39,14 +39,21 @@ CONSTANTS Svcs,        \* service names
           Cap,         \* capacity of subCh / unsubCh (code: 16)
           MaxOps,      \* caller operations per behaviour
           MaxFails,    \* stream failures (creation failures + breaks) per behaviour
-          FixEnqueue, FixBatch, LossySend, HasKeepalive
+          FixEnqueue, FixBatch, LossySend, HasKeepalive,
+          DirectCalls, \* TRUE: every dependency message carries one change and its call starts at once
+                       \* (CallStart); FALSE: dependency messages with several changes (DepMsg, ApplyNext)
+          MaxMsgLen,   \* services named by one dependency message (DirectCalls = FALSE)
+          AsyncApply   \* FALSE (the code, discovery.go:46-60): the dependency receive loop applies a message
+                       \* (Subscribe for every added, Unsubscribe for every removed service) before it takes the
+                       \* next one; TRUE: every message is applied by a goroutine of its own
 
 VARIABLES
   subscribed,          \* c.subscribed
   subCh, unsubCh,      \* c.subCh, c.unsubCh (FIFO)
   lock,                \* c.RWMutex: "free" | "W" (read sections are single actions)
-  caller,              \* pc of the caller: idle | wantLock | enqueue | unlock
-  cop,                 \* operation in progress <<kind, service>>
+  caller,              \* per applier: pc of the call in progress: idle | wantLock | enqueue | unlock
+  cop,                 \* per applier: operation in progress <<kind, service>>
+  aq,                  \* per applier: the calls of its dependency message still to be made
   ops,                 \* operations started so far
   deps,                \* the dependency set the caller is tracking (ghost)
   run,                 \* pc of the run loop, see RunPCs
@@ -59,8 +66,12 @@ VARIABLES
   fails,               \* failures injected so far
   amb                  \* ghost: services whose last request on this stream named them in both lists
 
-vars == <<subscribed, subCh, unsubCh, lock, caller, cop, ops, deps, run, rcv, snap, batchS, batchU,
+vars == <<subscribed, subCh, unsubCh, lock, caller, cop, aq, ops, deps, run, rcv, snap, batchS, batchU,
           up, silent, srv, fails, amb>>
+
+\* appliers: the dependency receive loop itself (1), or - AsyncApply - goroutines started per message
+\* (two in flight are enough for the counterexample)
+Ap == IF AsyncApply THEN {1, 2} ELSE {1}
 
 RunPCs == {"newStream", "backoff", "resubLock", "resubSend", "sendSelect", "sendBatch",
            "sendResolve", "sendSend", "waitRecv"}
@@ -70,56 +81,91 @@ TypeOK ==
   /\ batchS \subseteq Svcs /\ batchU \subseteq Svcs /\ amb \subseteq Svcs
   /\ subCh \in Seq(Svcs) /\ unsubCh \in Seq(Svcs) /\ Len(subCh) <= Cap /\ Len(unsubCh) <= Cap
   /\ lock \in {"free", "W"}
-  /\ caller \in {"idle", "wantLock", "enqueue", "unlock"}
+  /\ caller \in [Ap -> {"idle", "wantLock", "enqueue", "unlock"}]
+  /\ \A i \in Ap : Len(aq[i]) <= MaxMsgLen
   /\ run \in RunPCs /\ rcv \in {"off", "recv", "done"}
   /\ up \in BOOLEAN /\ silent \in BOOLEAN /\ (silent => up) /\ ops \in 0..MaxOps /\ fails \in 0..MaxFails
 
 Init ==
   /\ subscribed = {} /\ subCh = <<>> /\ unsubCh = <<>> /\ lock = "free"
-  /\ caller = "idle" /\ cop = <<"none", "none">> /\ ops = 0 /\ deps = {}
+  /\ caller = [i \in Ap |-> "idle"] /\ cop = [i \in Ap |-> <<"none", "none">>] /\ aq = [i \in Ap |-> <<>>]
+  /\ ops = 0 /\ deps = {}
   /\ run = "newStream" /\ rcv = "off" /\ snap = {} /\ batchS = {} /\ batchU = {}
   /\ up = FALSE /\ silent = FALSE /\ srv = {} /\ fails = 0 /\ amb = {}
 
 Range(q) == {q[i] : i \in 1..Len(q)}
 
 -----------------------------------------------------------------------------
+AllIdle == \A i \in Ap : caller[i] = "idle" /\ aq[i] = <<>>
+
+RECURSIVE SetToSeq(_)
+SetToSeq(S) == IF S = {} THEN <<>> ELSE LET x == CHOOSE y \in S : TRUE IN <<x>> \o SetToSeq(S \ {x})
+
 (* Environment: the dependency stream reports s as added / removed; the hook *)
 (* calls Subscribe(s) / Unsubscribe(s) (discovery.go:46-60).  Calls for a    *)
 (* service that is already in the requested state are allowed (early return).*)
 CallStart(s, kind) ==
-  /\ caller = "idle" /\ ops < MaxOps
+  /\ DirectCalls /\ AllIdle /\ ops < MaxOps
   /\ deps' = IF kind = "sub" THEN deps \cup {s} ELSE deps \ {s}
-  /\ cop' = <<kind, s>> /\ caller' = "wantLock" /\ ops' = ops + 1
-  /\ UNCHANGED <<subscribed, subCh, unsubCh, lock, run, rcv, snap, batchS, batchU, up, silent, srv, fails, amb>>
+  /\ cop' = [cop EXCEPT ![1] = <<kind, s>>] /\ caller' = [caller EXCEPT ![1] = "wantLock"] /\ ops' = ops + 1
+  /\ UNCHANGED <<subscribed, subCh, unsubCh, lock, aq, run, rcv, snap, batchS, batchU, up, silent, srv, fails, amb>>
+
+(* Environment: the dependency stream delivers a message (added A, removed R).  *)
+(* The user's hook sees it at once, in order (deps).  The calls it stands for -  *)
+(* Subscribe for every added, then Unsubscribe for every removed service - are   *)
+(* handed to an applier: the receive loop itself, which takes the next message    *)
+(* only when it is done (the code), or a goroutine per message (AsyncApply).      *)
+DepMsg(A, R) ==
+  /\ ~DirectCalls /\ A \cap R = {} /\ A \cup R # {}
+  /\ Cardinality(A \cup R) <= MaxMsgLen /\ ops + Cardinality(A \cup R) <= MaxOps
+  /\ LET free == {i \in Ap : caller[i] = "idle" /\ aq[i] = <<>>} IN
+       /\ free # {}
+       /\ LET i == CHOOSE j \in free : \A k \in free : j <= k IN
+            aq' = [aq EXCEPT ![i] = [n \in 1..Cardinality(A) |-> <<"sub", SetToSeq(A)[n]>>]
+                                      \o [n \in 1..Cardinality(R) |-> <<"unsub", SetToSeq(R)[n]>>]]
+  /\ deps' = (deps \cup A) \ R
+  /\ ops' = ops + Cardinality(A \cup R)
+  /\ UNCHANGED <<subscribed, subCh, unsubCh, lock, caller, cop, run, rcv, snap, batchS, batchU, up, silent, srv, fails, amb>>
+
+(* the applier makes the next call of its message                                  *)
+ApplyNext(i) ==
+  /\ caller[i] = "idle" /\ aq[i] # <<>>
+  /\ cop' = [cop EXCEPT ![i] = Head(aq[i])] /\ aq' = [aq EXCEPT ![i] = Tail(aq[i])]
+  /\ caller' = [caller EXCEPT ![i] = "wantLock"]
+  /\ UNCHANGED <<subscribed, subCh, unsubCh, lock, ops, deps, run, rcv, snap, batchS, batchU, up, silent, srv, fails, amb>>
 
 (* c.Lock(); membership test; update of the set (discovery.go:284-290 / 295-301). *)
 (* Early return releases the lock at once.  Repaired code: the lock is released   *)
 (* here, before the enqueue.                                                      *)
-CallLock ==
-  /\ caller = "wantLock" /\ lock = "free"
-  /\ LET s == cop[2]
-         noop == IF cop[1] = "sub" THEN s \in subscribed ELSE s \notin subscribed
+CallLock(i) ==
+  /\ caller[i] = "wantLock" /\ lock = "free"
+  /\ LET s == cop[i][2]
+         noop == IF cop[i][1] = "sub" THEN s \in subscribed ELSE s \notin subscribed
      IN IF noop
-          THEN /\ caller' = "idle" /\ UNCHANGED <<subscribed, lock>>
-          ELSE /\ subscribed' = IF cop[1] = "sub" THEN subscribed \cup {s} ELSE subscribed \ {s}
-               /\ caller' = "enqueue"
+          THEN /\ caller' = [caller EXCEPT ![i] = "idle"] /\ UNCHANGED <<subscribed, lock>>
+          ELSE /\ subscribed' = IF cop[i][1] = "sub" THEN subscribed \cup {s} ELSE subscribed \ {s}
+               /\ caller' = [caller EXCEPT ![i] = "enqueue"]
                /\ lock' = IF FixEnqueue THEN "free" ELSE "W"
-  /\ UNCHANGED <<subCh, unsubCh, cop, ops, deps, run, rcv, snap, batchS, batchU, up, silent, srv, fails, amb>>
+  /\ UNCHANGED <<subCh, unsubCh, cop, aq, ops, deps, run, rcv, snap, batchS, batchU, up, silent, srv, fails, amb>>
 
 (* c.subCh <- svcName / c.unsubCh <- svcName: blocks while the channel is full    *)
 (* (discovery.go:291 / 302).                                                      *)
-CallEnqueue ==
-  /\ caller = "enqueue"
-  /\ IF cop[1] = "sub"
-       THEN /\ Len(subCh) < Cap /\ subCh' = Append(subCh, cop[2]) /\ UNCHANGED unsubCh
-       ELSE /\ Len(unsubCh) < Cap /\ unsubCh' = Append(unsubCh, cop[2]) /\ UNCHANGED subCh
-  /\ caller' = IF FixEnqueue THEN "idle" ELSE "unlock"
-  /\ UNCHANGED <<subscribed, lock, cop, ops, deps, run, rcv, snap, batchS, batchU, up, silent, srv, fails, amb>>
+CallEnqueue(i) ==
+  /\ caller[i] = "enqueue"
+  /\ IF cop[i][1] = "sub"
+       THEN /\ Len(subCh) < Cap /\ subCh' = Append(subCh, cop[i][2]) /\ UNCHANGED unsubCh
+       ELSE /\ Len(unsubCh) < Cap /\ unsubCh' = Append(unsubCh, cop[i][2]) /\ UNCHANGED subCh
+  /\ caller' = [caller EXCEPT ![i] = IF FixEnqueue THEN "idle" ELSE "unlock"]
+  /\ UNCHANGED <<subscribed, lock, cop, aq, ops, deps, run, rcv, snap, batchS, batchU, up, silent, srv, fails, amb>>
 
 (* deferred c.Unlock() (pinned code) *)
-CallUnlock ==
-  /\ caller = "unlock" /\ lock' = "free" /\ caller' = "idle"
-  /\ UNCHANGED <<subscribed, subCh, unsubCh, cop, ops, deps, run, rcv, snap, batchS, batchU, up, silent, srv, fails, amb>>
+CallUnlock(i) ==
+  /\ caller[i] = "unlock" /\ lock' = "free" /\ caller' = [caller EXCEPT ![i] = "idle"]
+  /\ UNCHANGED <<subscribed, subCh, unsubCh, cop, aq, ops, deps, run, rcv, snap, batchS, batchU, up, silent, srv, fails, amb>>
+
+\* blocked in the channel send on a full queue
+BlockedOnFull(i) ==
+  caller[i] = "enqueue" /\ (IF cop[i][1] = "sub" THEN Len(subCh) ELSE Len(unsubCh)) = Cap
 
 -----------------------------------------------------------------------------
 (* c.newStream(ctx) returns a stream (discovery.go:328).  The server starts with  *)
@@ -127,18 +173,18 @@ CallUnlock ==
 NewStreamOK ==
   /\ run = "newStream"
   /\ up' = TRUE /\ silent' = FALSE /\ srv' = {} /\ amb' = {} /\ run' = "resubLock"
-  /\ UNCHANGED <<subscribed, subCh, unsubCh, lock, caller, cop, ops, deps, rcv, snap, batchS, batchU, fails>>
+  /\ UNCHANGED <<subscribed, subCh, unsubCh, lock, caller, cop, aq, ops, deps, rcv, snap, batchS, batchU, fails>>
 
 (* c.newStream(ctx) fails (discovery.go:329-332): back to Run, retry timer.       *)
 NewStreamFail ==
   /\ run = "newStream" /\ fails < MaxFails
   /\ fails' = fails + 1 /\ run' = "backoff"
-  /\ UNCHANGED <<subscribed, subCh, unsubCh, lock, caller, cop, ops, deps, rcv, snap, batchS, batchU, up, silent, srv, amb>>
+  /\ UNCHANGED <<subscribed, subCh, unsubCh, lock, caller, cop, aq, ops, deps, rcv, snap, batchS, batchU, up, silent, srv, amb>>
 
 (* the jittered retry timer fires (discovery.go:316-323)                          *)
 Backoff ==
   /\ run = "backoff" /\ run' = "newStream"
-  /\ UNCHANGED <<subscribed, subCh, unsubCh, lock, caller, cop, ops, deps, rcv, snap, batchS, batchU, up, silent, srv, fails, amb>>
+  /\ UNCHANGED <<subscribed, subCh, unsubCh, lock, caller, cop, aq, ops, deps, rcv, snap, batchS, batchU, up, silent, srv, fails, amb>>
 
 (* resubscribe: RLock; snapshot of the set; flush of both channels; RUnlock       *)
 (* (discovery.go:353-362).  With an empty snapshot nothing is sent (364-367) and  *)
@@ -152,13 +198,12 @@ Backoff ==
 ResubLock ==
   /\ run = "resubLock" /\ lock = "free"
   /\ snap' = subscribed /\ subCh' = <<>> /\ unsubCh' = <<>>
-  /\ \/ UNCHANGED caller
-     \/ /\ caller = "enqueue" /\ caller' = "idle"
-        /\ (IF cop[1] = "sub" THEN Len(subCh) ELSE Len(unsubCh)) = Cap
+  /\ \E B \in SUBSET {i \in Ap : BlockedOnFull(i) /\ lock = "free"} :
+       caller' = [i \in Ap |-> IF i \in B THEN "idle" ELSE caller[i]]
   /\ IF subscribed = {}
        THEN run' = "sendSelect" /\ rcv' = "recv"
        ELSE run' = "resubSend" /\ UNCHANGED rcv
-  /\ UNCHANGED <<subscribed, lock, cop, ops, deps, batchS, batchU, up, silent, srv, fails, amb>>
+  /\ UNCHANGED <<subscribed, lock, cop, aq, ops, deps, batchS, batchU, up, silent, srv, fails, amb>>
 
 (* stream.Send(snapshot, nil) (discovery.go:369); an error ends run() before the  *)
 (* loops are started (335-338).  On a silently dead stream the Send succeeds into *)
@@ -171,32 +216,32 @@ ResubSend ==
      \/ /\ ~up /\ run' = "backoff" /\ UNCHANGED <<srv, amb, rcv>>
      \/ /\ ~up /\ LossySend /\ run' = "sendSelect" /\ rcv' = "recv" /\ UNCHANGED <<srv, amb>>
   /\ snap' = {}
-  /\ UNCHANGED <<subscribed, subCh, unsubCh, lock, caller, cop, ops, deps, batchS, batchU, up, silent, fails>>
+  /\ UNCHANGED <<subscribed, subCh, unsubCh, lock, caller, cop, aq, ops, deps, batchS, batchU, up, silent, fails>>
 
 (* loopSend: the first select (discovery.go:404-411) and every iteration of the   *)
 (* batch loop (414-425) take one entry of one channel ...                         *)
 SenderTakeSub ==
   /\ run \in {"sendSelect", "sendBatch"} /\ subCh # <<>>
   /\ batchS' = batchS \cup {Head(subCh)} /\ subCh' = Tail(subCh) /\ run' = "sendBatch"
-  /\ UNCHANGED <<subscribed, unsubCh, lock, caller, cop, ops, deps, rcv, snap, batchU, up, silent, srv, fails, amb>>
+  /\ UNCHANGED <<subscribed, unsubCh, lock, caller, cop, aq, ops, deps, rcv, snap, batchU, up, silent, srv, fails, amb>>
 
 SenderTakeUnsub ==
   /\ run \in {"sendSelect", "sendBatch"} /\ unsubCh # <<>>
   /\ batchU' = batchU \cup {Head(unsubCh)} /\ unsubCh' = Tail(unsubCh) /\ run' = "sendBatch"
-  /\ UNCHANGED <<subscribed, subCh, lock, caller, cop, ops, deps, rcv, snap, batchS, up, silent, srv, fails, amb>>
+  /\ UNCHANGED <<subscribed, subCh, lock, caller, cop, aq, ops, deps, rcv, snap, batchS, up, silent, srv, fails, amb>>
 
 (* ... or see recvDone closed and return, dropping the batch in hand (409, 420);  *)
 (* run() then passes <-recvDone at once (341-343) and Run arms the retry timer.   *)
 SenderStop ==
   /\ run \in {"sendSelect", "sendBatch"} /\ rcv = "done"
   /\ run' = "backoff" /\ rcv' = "off" /\ batchS' = {} /\ batchU' = {}
-  /\ UNCHANGED <<subscribed, subCh, unsubCh, lock, caller, cop, ops, deps, snap, up, silent, srv, fails, amb>>
+  /\ UNCHANGED <<subscribed, subCh, unsubCh, lock, caller, cop, aq, ops, deps, snap, up, silent, srv, fails, amb>>
 
 (* ... or, in the batch loop only, find nothing ready: goto SEND (422-423)        *)
 SenderDefault ==
   /\ run = "sendBatch" /\ subCh = <<>> /\ unsubCh = <<>> /\ rcv # "done"
   /\ run' = IF FixBatch THEN "sendResolve" ELSE "sendSend"
-  /\ UNCHANGED <<subscribed, subCh, unsubCh, lock, caller, cop, ops, deps, rcv, snap, batchS, batchU, up, silent, srv, fails, amb>>
+  /\ UNCHANGED <<subscribed, subCh, unsubCh, lock, caller, cop, aq, ops, deps, rcv, snap, batchS, batchU, up, silent, srv, fails, amb>>
 
 (* repaired code only: a service in both lists is kept in the list that agrees    *)
 (* with the subscribed set, read under the read lock (taken only when needed)     *)
@@ -207,7 +252,7 @@ SenderResolve ==
        /\ batchS' = batchS \ (both \ subscribed)
        /\ batchU' = batchU \ (both \cap subscribed)
   /\ run' = "sendSend"
-  /\ UNCHANGED <<subscribed, subCh, unsubCh, lock, caller, cop, ops, deps, rcv, snap, up, silent, srv, fails, amb>>
+  /\ UNCHANGED <<subscribed, subCh, unsubCh, lock, caller, cop, aq, ops, deps, rcv, snap, up, silent, srv, fails, amb>>
 
 (* stream.Send(subscribed, unsubscribed) (discovery.go:428); an error ends        *)
 (* loopSend, run() then waits for loopRecv (341-343).  On a silently dead stream  *)
@@ -221,27 +266,27 @@ SenderSend ==
      \/ /\ ~up /\ run' = "waitRecv" /\ UNCHANGED <<srv, amb>>
      \/ /\ ~up /\ LossySend /\ run' = "sendSelect" /\ UNCHANGED <<srv, amb>>
   /\ batchS' = {} /\ batchU' = {}
-  /\ UNCHANGED <<subscribed, subCh, unsubCh, lock, caller, cop, ops, deps, rcv, snap, up, silent, fails>>
+  /\ UNCHANGED <<subscribed, subCh, unsubCh, lock, caller, cop, aq, ops, deps, rcv, snap, up, silent, fails>>
 
 (* <-recvDone after loopSend returned because of a send error                     *)
 WaitRecv ==
   /\ run = "waitRecv" /\ rcv = "done"
   /\ run' = "backoff" /\ rcv' = "off"
-  /\ UNCHANGED <<subscribed, subCh, unsubCh, lock, caller, cop, ops, deps, snap, batchS, batchU, up, silent, srv, fails, amb>>
+  /\ UNCHANGED <<subscribed, subCh, unsubCh, lock, caller, cop, aq, ops, deps, snap, batchS, batchU, up, silent, srv, fails, amb>>
 
 (* loopRecv: stream.Recv() fails on a broken stream; close(recvDone) (392-399,    *)
 (* 345-348).  Messages pushed by the server only reach the hook and are not       *)
 (* modelled.  On a silently dead stream Recv keeps blocking.                      *)
 RecvFail ==
   /\ rcv = "recv" /\ ~up /\ rcv' = "done"
-  /\ UNCHANGED <<subscribed, subCh, unsubCh, lock, caller, cop, ops, deps, run, snap, batchS, batchU, up, silent, srv, fails, amb>>
+  /\ UNCHANGED <<subscribed, subCh, unsubCh, lock, caller, cop, aq, ops, deps, run, snap, batchS, batchU, up, silent, srv, fails, amb>>
 
 (* Environment: the established stream breaks with an error the client sees       *)
 (* (server restart, RST), at any point of the client's progress.                  *)
 StreamFail ==
   /\ up /\ fails < MaxFails
   /\ up' = FALSE /\ silent' = FALSE /\ fails' = fails + 1
-  /\ UNCHANGED <<subscribed, subCh, unsubCh, lock, caller, cop, ops, deps, run, rcv, snap, batchS, batchU, srv, amb>>
+  /\ UNCHANGED <<subscribed, subCh, unsubCh, lock, caller, cop, aq, ops, deps, run, rcv, snap, batchS, batchU, srv, amb>>
 
 (* Environment: the connection carrying the stream dies without FIN/RST (host     *)
 (* powered off, NAT/LB entry dropped, partition): nothing reaches the server any   *)
@@ -249,7 +294,7 @@ StreamFail ==
 SilentFail ==
   /\ up /\ ~silent /\ fails < MaxFails
   /\ silent' = TRUE /\ fails' = fails + 1
-  /\ UNCHANGED <<subscribed, subCh, unsubCh, lock, caller, cop, ops, deps, run, rcv, snap, batchS, batchU, up, srv, amb>>
+  /\ UNCHANGED <<subscribed, subCh, unsubCh, lock, caller, cop, aq, ops, deps, run, rcv, snap, batchS, batchU, up, srv, amb>>
 
 (* Transport: the client keepalive (ping after 30 s without traffic, 10 s for the  *)
 (* answer; config/dynamic.go:90-93) closes the dead connection: from now on Recv    *)
@@ -257,19 +302,21 @@ SilentFail ==
 KeepaliveDetect ==
   /\ HasKeepalive /\ up /\ silent
   /\ up' = FALSE /\ silent' = FALSE
-  /\ UNCHANGED <<subscribed, subCh, unsubCh, lock, caller, cop, ops, deps, run, rcv, snap, batchS, batchU, srv, fails, amb>>
+  /\ UNCHANGED <<subscribed, subCh, unsubCh, lock, caller, cop, aq, ops, deps, run, rcv, snap, batchS, batchU, srv, fails, amb>>
 
 -----------------------------------------------------------------------------
-CallerNext == CallLock \/ CallEnqueue \/ CallUnlock
+ApplierNext(i) == ApplyNext(i) \/ CallLock(i) \/ CallEnqueue(i) \/ CallUnlock(i)
+CallerNext == \E i \in Ap : ApplierNext(i)
 RunNext == NewStreamOK \/ Backoff \/ ResubLock \/ ResubSend \/ SenderTakeSub \/ SenderTakeUnsub
              \/ SenderStop \/ SenderDefault \/ SenderResolve \/ SenderSend \/ WaitRecv
 RecvNext == RecvFail
 TransportNext == KeepaliveDetect
 ProxyNext == CallerNext \/ RunNext \/ RecvNext \/ TransportNext
-EnvNext == (\E s \in Svcs, k \in {"sub", "unsub"} : CallStart(s, k)) \/ NewStreamFail \/ StreamFail \/ SilentFail
+EnvNext == (\E s \in Svcs, k \in {"sub", "unsub"} : CallStart(s, k))
+             \/ (\E A, R \in SUBSET Svcs : DepMsg(A, R)) \/ NewStreamFail \/ StreamFail \/ SilentFail
 Next == ProxyNext \/ EnvNext
 
-Fairness == WF_vars(CallerNext) /\ WF_vars(RunNext) /\ WF_vars(RecvNext) /\ WF_vars(TransportNext)
+Fairness == (\A i \in Ap : WF_vars(ApplierNext(i))) /\ WF_vars(RunNext) /\ WF_vars(RecvNext) /\ WF_vars(TransportNext)
 Spec == Init /\ [][Next]_vars /\ Fairness
 
 -----------------------------------------------------------------------------
@@ -277,7 +324,7 @@ Spec == Init /\ [][Next]_vars /\ Fairness
 
 \* stream up, both loops running, sender idle in its first select, queues empty, caller idle
 Quiescent ==
-  /\ up /\ ~silent /\ run = "sendSelect" /\ rcv = "recv" /\ caller = "idle"
+  /\ up /\ ~silent /\ run = "sendSelect" /\ rcv = "recv" /\ AllIdle
   /\ subCh = <<>> /\ unsubCh = <<>>
 
 \* EventuallyInSync, safety half: whenever the client has nothing left to send on an
@@ -287,8 +334,8 @@ InSync == Quiescent => srv = deps
 \* the same, restricted to services whose last request was not ambiguous
 InSyncUnlessAmbiguous == Quiescent => (srv \ amb) = (deps \ amb)
 
-\* the subscribed set is the dependency set whenever the caller is idle
-SetTracksDeps == caller = "idle" => subscribed = deps
+\* the subscribed set is the dependency set whenever every dependency message has been applied
+SetTracksDeps == AllIdle => subscribed = deps
 
 \* NoDeadlock: the client's goroutines can all be blocked only in the quiescent state
 NoDeadlock == (~ENABLED ProxyNext) => Quiescent
@@ -299,20 +346,21 @@ Converges == <>[](Quiescent /\ srv = deps)
 ConvergesUnlessAmbiguous == <>[](Quiescent /\ (srv \ amb) = (deps \ amb))
 
 \* every Subscribe / Unsubscribe call returns
-CallerReturns == (caller # "idle") ~> (caller = "idle")
+CallerReturns == \A i \in Ap : (caller[i] # "idle") ~> (caller[i] = "idle")
 
 \* after a failure - signalled or silent - a new stream is requested
 KeepsRetrying == (~up \/ silent) ~> (run = "newStream")
 
 \* named windows (anti-vacuity: ~W must be violated)
 W_EnqueueBlockedHoldingLock ==
-  /\ caller = "enqueue" /\ lock = "W" /\ run = "resubLock"
-  /\ (IF cop[1] = "sub" THEN Len(subCh) ELSE Len(unsubCh)) = Cap
+  /\ lock = "W" /\ run = "resubLock" /\ \E i \in Ap : BlockedOnFull(i)
 W_BothListsOneBatch == run = "sendSend" /\ up /\ batchS \cap batchU # {}
 W_BatchDroppedOnStop == run \in {"sendBatch"} /\ rcv = "done" /\ (batchS \cup batchU) # {}
 W_SendOnBrokenStream == run \in {"sendSend", "resubSend"} /\ ~up
-W_EnqueueBlockedNoLock == caller = "enqueue" /\ lock = "free" /\ ~up /\ Len(subCh) = Cap
-W_IdleOnSilentStream == silent /\ run = "sendSelect" /\ rcv = "recv" /\ caller = "idle" /\ deps # {}
+W_EnqueueBlockedNoLock == (\E i \in Ap : caller[i] = "enqueue") /\ lock = "free" /\ ~up /\ Len(subCh) = Cap
+W_IdleOnSilentStream == silent /\ run = "sendSelect" /\ rcv = "recv" /\ AllIdle /\ deps # {}
+W_MessageParkedOnFullQueue == \E i \in Ap : BlockedOnFull(i) /\ aq[i] # <<>>
+NotW8 == ~W_MessageParkedOnFullQueue
 W_SendIntoSilentStream == silent /\ run = "sendSend"
 NotW6 == ~W_IdleOnSilentStream
 NotW7 == ~W_SendIntoSilentStream
